@@ -43,8 +43,21 @@ def qtail (q : Bool) : Bytes := if q then [63] else []
 structure KwOK (k : Kw) : Prop where
   ne : k.long ≠ []
   chars : k.long.all isKwChar = true
-  alpha : isAlpha (k.long.headD 0) = true
+  upper : isUpper (k.long.headD 0) = true
   short_eq : k.short = k.long.takeWhile (fun b => !isLower b)
+
+/-- the weaker facts the walker proof needs (also true of the `*NAME` keyword of a common
+pattern written without lower-case letters) -/
+structure KwW (k : Kw) : Prop where
+  ne : k.long ≠ []
+  chars : k.long.all (fun b => isKwChar b || b == 42) = true
+  short_eq : k.short = k.long.takeWhile (fun b => !isLower b)
+
+theorem KwOK.toW {k : Kw} (h : KwOK k) : KwW k :=
+  ⟨h.ne, by
+    have := h.chars
+    simp only [List.all_eq_true] at this ⊢
+    intro b hb; simp [this b hb], h.short_eq⟩
 
 /-- numbers[] bookkeeping: write `ws` from index `idx` on (writes beyond the array are dropped) -/
 def fill (nums : List Int) (idx : Nat) : List Int → List Int
@@ -60,3 +73,4 @@ def nonNumStart (c : UInt8) : Bool :=
   !isDigit c && c != 32 && !(9 ≤ c && c ≤ 13) && c != 45 && c != 43
 
 end ScpiVerif.Lemmas.Match
+
